@@ -25,6 +25,7 @@ def showRes : Res → String
   | .timeout => "timeout"
   | .badFd => "badfd"
   | .connReset => "connreset"
+  | .peerClosed => "peerclosed"
   | .busy => "busy"
 
 def showClient : Client → String
